@@ -153,6 +153,7 @@ def run(ctx):
                 '{no purge, --purge}; DeleteModel / DeleteApplication through an evolution; non-trivial = every case')
     relabelled_app_probe(ctx)
     inherited_m2m_probe(ctx)
+    two_database_purge_probe(ctx)
     n = 40 if quick else 400
     done = tries = 0
     while done < n and tries < n * 5 and ctx.time_left() > 25:
@@ -341,6 +342,63 @@ def inherited_m2m_probe(ctx):
         if changed:
             ctx.fail(None, 'deleting the child model altered other tables: %s' % changed, rep)
     dbrig.reset_db('default')
+
+
+def two_database_purge_probe(ctx):
+    """the same stale app on two databases, purged on `default` first and on `other` afterwards: each database is
+    purged from what is stored THERE - its tables go, its entries go, and the other database is not touched"""
+    from django.db import connections
+    from django_evolution.models import Version
+    from django_evolution.signature import AppSignature, ModelSignature
+
+    def fld(name, t, **attrs):
+        return {'name': name, 'type': t, 'attrs': attrs, 'related': None}
+    spec = {'apps': [{'id': 'vapp', 'models': [{'name': 'Alpha', 'table': 'vapp_alpha', 'unique_together': [],
+                                                 'index_together': [], 'indexes': [], 'constraints': [],
+                                                 'fields': [fld('id', 'AutoField', primary_key=True),
+                                                            fld('a', 'IntegerField', null=True)]}]}]}
+    evorig.fresh_databases()
+    evorig.clear_evolutions()
+    evorig.install_models(spec)
+    for alias in ('default', 'other'):
+        if evorig.run_evolver(alias=alias)[0] != 'ok':
+            ctx.count('two_database_purge:start_failed')
+            return
+        v = Version.objects.using(alias).order_by('-id')[0]
+        s = v.signature
+        a = AppSignature(app_id='yapp')
+        a.add_model_sig(ModelSignature(model_name='Yo', table_name='yapp_yo'))
+        s.add_app_sig(a)
+        v.signature = s
+        v.save(using=alias)
+        with connections[alias].cursor() as cur:
+            cur.execute('CREATE TABLE "yapp_yo" ("id" integer NOT NULL PRIMARY KEY AUTOINCREMENT)')
+            cur.execute('INSERT INTO "yapp_yo" ("id") VALUES (1)')
+    steps = []
+    rep = {'scenario': 'stale app on two databases, purged on default, then on other', 'history': steps}
+    ctx.count('two_database_purge_probe')
+    ctx.case({'scenario': rep['scenario']}, nontrivial=True, sample_cap=1)
+
+    def stored_apps(alias):
+        v = Version.objects.using(alias).order_by('-id')[0]
+        return sorted(a.app_id for a in v.signature.app_sigs)
+    for alias, other in (('default', 'other'), ('other', 'default')):
+        before_other = evorig.snapshot(other)
+        r = evorig.run_evolver(alias=alias, purge=True)
+        tables = sorted(dbrig.abs_schema(alias))
+        steps.append('purge on %s: %s; tables %s; stored apps %s' % (alias, r[0], tables, stored_apps(alias)))
+        if r[0] != 'ok':
+            ctx.fail(None, 'purging the stale app on %s fails: %s' % (alias, str(r[1])[:120]), rep)
+            return
+        if 'yapp_yo' in tables:
+            ctx.fail(None, 'after the purge on %s the stale app\'s table is still there' % alias, rep)
+        if 'yapp' in stored_apps(alias):
+            ctx.fail(None, 'after the purge on %s the stored signature still has the stale app\'s entry' % alias, rep)
+        if 'vapp_alpha' not in tables or 'vapp' not in stored_apps(alias):
+            ctx.fail(None, 'the purge on %s removed something of the installed app' % alias, rep)
+        if evorig.snapshot(other) != before_other:
+            ctx.fail(None, 'the purge on %s modified database %s' % (alias, other), rep)
+    evorig.fresh_databases()
 
 
 def relabelled_app_probe(ctx):
